@@ -74,6 +74,29 @@ def make_formulas(ns, ps):
                 acc.oblige(eng, "PELT.penalty_is_scale_times_2plogn", approx_eq(rv(d.penalty_), s, 2 * p * ln), dict(info, det="PELT"))
                 d = SeededBinarySegmentation(threshold_scale=S, min_segment_length=1).fit(X)
                 acc.oblige(eng, "SBS.threshold_is_scale_times_2p_sqrt_logn", approx_eq(rv(d.threshold_), s, 2 * p * math.sqrt(ln)), dict(info, det="SBS"))
+                # the defaults are functions of the *shape of the training data*, whatever the scorer's parameter count
+                from skchange.anomaly_scores import to_local_anomaly_score
+                from skchange.change_scores import to_change_score
+                from skchange.costs import GaussianVarCost
+                d = PELT(cost=GaussianVarCost(), penalty_scale=S, min_segment_length=1).fit(X)
+                acc.oblige(eng, "PELT.penalty_is_scale_times_2plogn", approx_eq(rv(d.penalty_), s, 2 * p * ln),
+                           dict(info, det="PELT", cost="GaussianVarCost"))
+                d = SeededBinarySegmentation(to_change_score(GaussianVarCost()), threshold_scale=S, min_segment_length=1).fit(X)
+                acc.oblige(eng, "SBS.threshold_is_scale_times_2p_sqrt_logn", approx_eq(rv(d.threshold_), s, 2 * p * math.sqrt(ln)),
+                           dict(info, det="SBS", score="GaussianVarCost"))
+                d = CircularBinarySegmentation(to_local_anomaly_score(GaussianVarCost()), threshold_scale=S, min_segment_length=1,
+                                               max_interval_length=7).fit(X)
+                with proxy.native():
+                    want = CircularBinarySegmentation.get_default_threshold(n, p, 7)
+                acc.oblige(eng, "CBS.threshold_is_scale_times_published_default", approx_eq(rv(d.threshold_), s, want),
+                           dict(info, det="CBS", M=7, score="GaussianVarCost"))
+                if n >= 4:
+                    d = MovingWindow(to_change_score(GaussianVarCost()), bandwidth=2, threshold_scale=S, level=0.2).fit(X)
+                    with proxy.native():
+                        want = MovingWindow.get_default_threshold(n, p, 2, 0.2)
+                    if math.isfinite(want):
+                        acc.oblige(eng, "MovingWindow.threshold_is_scale_times_published_default",
+                                   approx_eq(rv(d.threshold_), s, want), dict(info, det="MovingWindow", b=2, level=0.2, score="GaussianVarCost"))
                 for k_per in (1, 2):
                     d = CAPA(TableSaving(p=p, n_params=k_per), TableSaving(p=p, tag="P"), collective_penalty_scale=S,
                              point_penalty_scale=S, min_segment_length=2, max_segment_length=5)
@@ -298,11 +321,20 @@ def replay(cx):
         X = pd.DataFrame(np.zeros((n, p)))
         ln = math.log(n)
         scale = scale if scale > 0 else 2.0
+        gauss = "cost" in info or "score" in info     # the run with a two-parameters-per-variable scorer
         with proxy.native():
+            from skchange.anomaly_scores import to_local_anomaly_score
+            from skchange.change_scores import to_change_score
+            from skchange.costs import GaussianVarCost, L2Cost
+            # same call shape as the symbolic run: default scorer, or the Gaussian one
+            cs = dict(change_score=to_change_score(GaussianVarCost())) if gauss else {}
+            las = dict(anomaly_score=to_local_anomaly_score(GaussianVarCost())) if gauss else {}
             if det == "PELT":
-                got, want = PELT(penalty_scale=scale, min_segment_length=1).fit(X).penalty_, scale * 2 * p * ln
+                got = PELT(**(dict(cost=GaussianVarCost()) if gauss else {}), penalty_scale=scale, min_segment_length=1).fit(X).penalty_
+                want = scale * 2 * p * ln
             elif det == "SBS":
-                got, want = SeededBinarySegmentation(threshold_scale=scale, min_segment_length=1).fit(X).threshold_, scale * 2 * p * math.sqrt(ln)
+                got = SeededBinarySegmentation(**cs, threshold_scale=scale, min_segment_length=1).fit(X).threshold_
+                want = scale * 2 * p * math.sqrt(ln)
             elif det == "CAPA":
                 k = info["k"]
                 d = CAPA(TableSaving(p=p, n_params=k // p), TableSaving(p=p, tag="P"), collective_penalty_scale=scale, point_penalty_scale=scale,
@@ -314,11 +346,12 @@ def replay(cx):
                     got, want = d.point_penalty_, scale * one.point_penalty_
             elif det == "MovingWindow":
                 b, level = info["b"], info["level"]
-                got = MovingWindow(bandwidth=b, threshold_scale=scale, level=level).fit(X).threshold_
+                got = MovingWindow(**cs, bandwidth=b, threshold_scale=scale, level=level).fit(X).threshold_
                 want = scale * MovingWindow.get_default_threshold(n, p, b, level)
             else:
                 M = info["M"]
-                got = CircularBinarySegmentation(threshold_scale=scale, min_segment_length=1, max_interval_length=M).fit(X).threshold_
+                got = CircularBinarySegmentation(**las, threshold_scale=scale, min_segment_length=1,
+                                                 max_interval_length=M).fit(X).threshold_
                 want = scale * (2 * p * math.log(n * M) if "2p_log" in ob else CircularBinarySegmentation.get_default_threshold(n, p, M))
         bad = not math.isclose(float(got), float(want), rel_tol=1e-9, abs_tol=1e-12)
         return dict(reproduced=bad, key=key, what=f"{det} fitted on shape ({n},{p}) with scale {scale}: value {got}, documented formula gives {want}")
